@@ -44,7 +44,7 @@ CLAIMED = {
  'C05': dict(
    technique='runtime monitoring: online reference-model monitor over call records of seeded random histories (generic driver, hostile peer, small alphabets), every call under catch_unwind in the overflow-checks build (+ second build with assertions/overflow checks off)',
    level='exploration',
-   text='700 k (quick) / 25 M (thorough) histories of contract-respecting local calls interleaved with arbitrary peer traffic (valid packets of every kind with boundary values, mutated frames, garbage, tiny Maximum Packet Size, Receive Maximum 1, Topic Alias Maximum 0) over all roles/versions/id widths/options; rules: no panic in any call, recv always progresses, every complete frame is delivered, answered as a duplicate or reported, a fresh handshake is accepted after every close (the driver reconnects after every close). One history in four lets the application break its contract (release of a busy id, another packet on a busy id); afterwards only the unconditional rules are judged. Directed extreme values: frames with Remaining Length 268435455 / next to it (alias-only PUBLISH with a bound alias), 65 539 stored exchanges with u32 ids resumed and acknowledged one by one. Both build profiles.',
+   text='700 k (quick) / 25 M (thorough) histories of contract-respecting local calls interleaved with arbitrary peer traffic (valid packets of every kind with boundary values, mutated frames, garbage, tiny Maximum Packet Size, Receive Maximum 1, Topic Alias Maximum 0) over all roles/versions/id widths/options; rules: no panic in any call, recv always progresses, every complete frame is delivered, answered as a duplicate or reported, a fresh handshake is accepted after every close (the driver reconnects after every close). One history in four lets the application break its contract (release of a busy id, another packet on a busy id); afterwards only the unconditional rules are judged. Directed: every property repeated 256 / 257 / 1000 times in every location, fed to a live connection (X11); frames with Remaining Length 268435455 / next to it (alias-only PUBLISH with a bound alias), 65 539 stored exchanges with u32 ids resumed and acknowledged one by one. Both build profiles.',
    note='Trusted: the reference model of DESIGN Appendix F (written from the property statements, updated only from calls, returned events and public probes) and the application contract of DESIGN §3.3. The hook digest is only used to read the in-use id set faster; the same clause is re-checked black-box by register()/release() probing on a sample of calls.',
    design='DESIGN.md §4 + Appendix F'),
  'C06': dict(
@@ -56,7 +56,7 @@ CLAIMED = {
  'C07': dict(
    technique='runtime monitoring: online reference-model monitor over call records of seeded random histories (generic driver, hostile peer, small alphabets), every call under catch_unwind in the overflow-checks build',
    level='exploration',
-   text='Per-id handled bit: a QoS 2 PUBLISH is notified at most once between releases (Q1), get_qos2_publish_handled() equals the model set after every call (Q2), a validated first PUBLISH is never swallowed (Q3), duplicates are answered with PUBREC (Q4); histories include reconnects (clean/resumed), error PUBREC, manual and automatic responses, both versions and receiving roles.',
+   text='Per-id handled bit: a QoS 2 PUBLISH is notified at most once between releases (Q1), get_qos2_publish_handled() equals the model set after every call (Q2), a validated first PUBLISH is never swallowed (Q3), duplicates are answered with PUBREC (Q4), an id in the handled set was notified - directed with alias-only QoS 2 PUBLISHes of 17 MB and 100 MB (Q5); histories include reconnects (clean/resumed), error PUBREC, manual and automatic responses, both versions and receiving roles.',
    note='Trusted: the reference model of DESIGN Appendix F (written from the property statements, updated only from calls, returned events and public probes) and the application contract of DESIGN §3.3. The hook digest is only used to read the in-use id set faster; the same clause is re-checked black-box by register()/release() probing on a sample of calls.',
    design='DESIGN.md §4 + Appendix F'),
  'C08': dict(
@@ -68,13 +68,13 @@ CLAIMED = {
  'C12': dict(
    technique='runtime monitoring: online reference-model monitor over call records of seeded random histories (generic driver, hostile peer, small alphabets), every call under catch_unwind in the overflow-checks build (+ second build with overflow checks off)',
    level='exploration',
-   text='Outstanding-set model keyed by id: vacancy == max(0, M - |outstanding|) after every call on an established v5 connection and on a server between CONNECT and CONNACK, where publishes queued for the flush already count (F1), a QoS>0 PUBLISH is accepted iff below the limit (F2), inbound excess is not delivered, and a retransmission answered with PUBREC as a duplicate counts as an inbound exchange of this connection and is itself subject to the limit (F3); M in {1,2,3,65535}, resumes with stored packets, erasures, refusals, error acks.',
+   text='Outstanding-set model keyed by id: vacancy == max(0, M - |outstanding|) after every call on an established v5 connection and on a server between CONNECT and CONNACK, where publishes queued for the flush already count (F1), a QoS>0 PUBLISH is accepted iff below the limit (F2), Directed: windows of 255, 256, 257, 300, 1000 filled with fresh PUBLISHes on one connection, the next refused, drained in a scattered order (F5); 65 539 exchanges with u32 ids resumed under Receive Maximum 10 (F4). Inbound excess is not delivered, and a retransmission answered with PUBREC as a duplicate counts as an inbound exchange of this connection and is itself subject to the limit (F3); M in {1,2,3,65535}, resumes with stored packets, erasures, refusals, error acks.',
    note='Trusted: the reference model of DESIGN Appendix F (written from the property statements, updated only from calls, returned events and public probes) and the application contract of DESIGN §3.3. The hook digest is only used to read the in-use id set faster; the same clause is re-checked black-box by register()/release() probing on a sample of calls.',
    design='DESIGN.md §4 + Appendix F'),
  'C13': dict(
    technique='runtime monitoring: online reference-model monitor over call records of seeded random histories (generic driver, hostile peer, small alphabets), every call under catch_unwind in the overflow-checks build',
    level='exploration',
-   text="Independent model of the RECEIVER's alias table built from the outgoing packet stream: an empty topic is only sent with an alias in range that an earlier PUBLISH actually sent on this connection bound to the intended topic (AL1-AL3), stored/retransmitted copies carry full topic and no alias (AL4), inbound aliased publishes resolve to what the peer bound or are rejected (AL5, AL6), an alias-only PUBLISH is accepted for queueing only with a binding made on the current connection and is stored under the topic the application meant (AL7, AL4); manual, auto-map, auto-replace, refusals in between, reconnects, server publishing before CONNACK.",
+   text="Independent model of the RECEIVER's alias table built from the outgoing packet stream: an empty topic is only sent with an alias in range that an earlier PUBLISH actually sent on this connection bound to the intended topic (AL1-AL3), stored/retransmitted copies carry full topic and no alias (AL4), inbound aliased publishes resolve to what the peer bound or are rejected (AL5, AL6), an alias-only PUBLISH is accepted for queueing only with a binding made on the current connection and is stored under the topic the application meant (AL7, AL4); manual, auto-map, auto-replace, refusals in between, reconnects, server publishing before CONNACK; regulate_for_store() probed with every PUBLISH about to be sent (AL8); directed: 45 topics in three scattered rounds through send tables of 2..40 entries.",
    note='Trusted: the reference model of DESIGN Appendix F (written from the property statements, updated only from calls, returned events and public probes) and the application contract of DESIGN §3.3. The hook digest is only used to read the in-use id set faster; the same clause is re-checked black-box by register()/release() probing on a sample of calls.',
    design='DESIGN.md §4 + Appendix F'),
  'C14': dict(
@@ -86,7 +86,7 @@ CLAIMED = {
  'C15': dict(
    technique='runtime monitoring: online reference-model monitor over call records of seeded random histories (generic driver, hostile peer, small alphabets), every call under catch_unwind in the overflow-checks build',
    level='exploration',
-   text='Armed-set model driven by Reset/Cancel/fire: cancel only when armed (T1), nothing armed after close or DISCONNECT (T2), no local call arms a timer while disconnected (T3), client re-arms PINGREQ with the priority interval after every send incl. retransmission (T4), server re-arms 1.5 x keep-alive on every accepted packet and never for 0 (T5), PINGREQ arms / PINGRESP cancels the response timer (T6), each expiry has its specified effect (T7), a connection opened as a client never arms the PINGREQ receive timer - an Any-role object changes sides between its connections (T8).',
+   text='Armed-set model driven by Reset/Cancel/fire: cancel only when armed (T1), nothing armed after close or DISCONNECT (T2), no local call arms a timer while disconnected (T3), client re-arms PINGREQ with the priority interval after every send incl. retransmission (T4), server re-arms 1.5 x keep-alive on every accepted packet and never for 0 (T5), PINGREQ arms / PINGRESP cancels the response timer (T6), each expiry has its specified effect (T7) - also when the peer has stalled 66-69 KiB into a frame -, intervals and timeouts up to u64::MAX ms pass through unchanged, a connection opened as a client never arms the PINGREQ receive timer - an Any-role object changes sides between its connections (T8).',
    note='Trusted: the reference model of DESIGN Appendix F (written from the property statements, updated only from calls, returned events and public probes) and the application contract of DESIGN §3.3. The hook digest is only used to read the in-use id set faster; the same clause is re-checked black-box by register()/release() probing on a sample of calls.',
    design='DESIGN.md §4 + Appendix F'),
  'C19': dict(
@@ -110,13 +110,13 @@ CLAIMED = {
  'C04': dict(
    technique='runtime monitoring: catch_unwind + overflow-checks build as panic sanitizer, self-consistency and rebuild-through-builder oracles over exhaustive short inputs, structure-aware mutation and random bytes',
    level='exploration',
-   text='All 29 parsers x id widths: every body of length <= 2 (quick) / <= 3 (thorough) exhaustively (PUBLISH x 16 flag nibbles), 1.5 M / 120 M structure-aware mutations of valid encodings (length fields +-1/0/max, non-minimal and over-long VBIs, id 0, QoS 3, properties duplicated/removed/re-tagged, invalid UTF-8, truncation, insertion) and random bodies; every accepted packet must report size()==len(serialisation), re-parse to an equal packet, expose only valid UTF-8 and be accepted by the public builder of its kind when its accessor values are fed back. Standalone decoders included (VBI compared with a reference decoder).',
+   text='All 29 parsers x id widths: every body of length <= 2 (quick) / <= 3 (thorough) exhaustively (PUBLISH x 16 flag nibbles), 1.5 M / 120 M structure-aware mutations of valid encodings (length fields +-1/0/max, non-minimal and over-long VBIs, id 0, QoS 3, properties duplicated/removed/re-tagged, invalid UTF-8, truncation, insertion), one property repeated 2..1000 times in every location, and random bodies; every accepted packet must report size()==len(serialisation), re-parse to an equal packet, expose only valid UTF-8 and be accepted by the public builder of its kind when its accessor values are fed back. Standalone decoders included (VBI compared with a reference decoder).',
    note='Trusted: rebuild oracle = builder acceptance of accessor values; bits that no accessor/builder can express are counted (noncanonical_accepted), not judged. Reads outside the input are panics in safe Rust (caught); the single unsafe block is covered by the UTF-8 re-validation monitor and by the Miri shards of the thorough tier.',
    design='DESIGN.md §4 C04'),
  'C18': dict(
    technique='runtime monitoring over an exhaustively enumerated finite table: reference acceptance table (MQTT 5.0 Table 2-4) vs builder path and parser path',
    level='exploration',
-   text='All 1484 cells (27 property ids x 14 locations incl. will x count {1,2} x value classes incl. every forbidden value) are placed into a minimal valid carrier packet and run through the public builders and, reference-encoded, through the parsers; acceptance must equal the specification table on both paths. Exhaustive over the table. The authentication pair (method, data) is placed in both orders with User Properties in between (T6). Every cell is placed in two carriers: the minimal packet and one that differs in everything around the property list (failure reason codes, QoS 2/RETAIN/DUP, kept session with credentials, several entries). In addition every ordered pair of distinct property ids x 14 locations in the list shapes [A,B] [B,A] [A,B,B] [B,A,B] [B,B,A] (~5.8 k cells: the verdict on a property must not depend on its neighbour) and 20 k (quick) / 2 M (thorough) seeded random property lists of up to 6 entries.',
+   text='All 1484 cells (27 property ids x 14 locations incl. will x count {1,2} x value classes incl. every forbidden value) are placed into a minimal valid carrier packet and run through the public builders and, reference-encoded, through the parsers; acceptance must equal the specification table on both paths. Exhaustive over the table. At most once also holds for 3, 255, 256, 257 and 1000 occurrences (T7). The authentication pair (method, data) is placed in both orders with User Properties in between (T6). Every cell is placed in two carriers: the minimal packet and one that differs in everything around the property list (failure reason codes, QoS 2/RETAIN/DUP, kept session with credentials, several entries). In addition every ordered pair of distinct property ids x 14 locations in the list shapes [A,B] [B,A] [A,B,B] [B,A,B] [B,B,A] (~5.8 k cells: the verdict on a property must not depend on its neighbour) and 20 k (quick) / 2 M (thorough) seeded random property lists of up to 6 entries.',
    note='Trusted: my transcription of Table 2-4 (DESIGN Appendix C). Builder cells whose value no public constructor can express are counted as inexpressible.',
    design='DESIGN.md §4 C18'),
  'C20': dict(
